@@ -79,6 +79,49 @@ def _c02_sat(args):
     return [o for o in out if o is not None]
 
 
+def _c20_chain(args):
+    """x[i][j] = v on 2-D objects (and x[i][a:b][k] = v, x[:, j][i] = v): the literal chained indexed assignment of C20"""
+    seed, count = args
+    import fractions
+    F = fractions.Fraction
+    from ..common import wint, wdy
+    fx = common.import_fxpmath()
+    import numpy as np
+    rng = random.Random(seed)
+    out = []
+    for _ in range(count):
+        s = rng.random() < 0.5
+        w = rng.randint(2, 12)
+        f = rng.randint(0, w)
+        lo, hi = ((-(1 << (w - 1)), (1 << (w - 1)) - 1) if s else (0, (1 << w) - 1))
+        r, o = rng.choice(['trunc', 'fix', 'floor', 'ceil', 'around']), rng.choice(['saturate', 'wrap'])
+        rows_, cols = rng.choice([(2, 2), (2, 3), (3, 2), (3, 3)])
+        codes = [rng.randint(lo, hi) for _ in range(rows_ * cols)]
+        k4 = rng.choice([4 * lo, 4 * hi, 4 * hi + 6, 4 * lo - 5, 2, 4 * rng.randint(lo, hi), 4 * rng.randint(lo, hi) + rng.randint(0, 3)])
+        v = F(k4, 4) / F(2) ** f
+        i, j = rng.randrange(rows_), rng.randrange(cols)
+        how = rng.choice(['x[i][j]', 'x[i][j:j+1][0]', 'x[:, j][i]', 'x[::-1][i][j]', 'x.T[j][i]' if False else 'x[i][j]'])
+        row = {'k': 'chain', 'p': ['C20'], 's': s, 'w': w, 'f': f, 'r': r, 'o': o, 'route': how, 'carrier': 'array2d', 'v': wdy(v)}
+        try:
+            a = np.array(codes, dtype=np.int64 if s else np.uint64).reshape(rows_, cols)
+            x = fx.Fxp(a, s, w, f, raw=True, rounding=r, overflow=o)
+            before = [int(c) for c in x.val.ravel().tolist()]
+            fv = float(v)
+            if how == 'x[i][j]':
+                x[i][j] = fv
+            elif how == 'x[i][j:j+1][0]':
+                x[i][j:j + 1][0] = fv
+            elif how == 'x[:, j][i]':
+                x[:, j][i] = fv
+            else:
+                x[::-1][rows_ - 1 - i][j] = fv
+            after = [int(c) for c in x.val.ravel().tolist()]
+            out.append(dict(row, before=[wint(c) for c in before], after=[wint(c) for c in after], pos=i * cols + j + 1))
+        except Exception as ex:
+            out.append(dict(row, k='error', err=type(ex).__name__, msg=str(ex)[:200]))
+    return out
+
+
 def run(chk):
     pid, tier = chk.pid, chk.tier
     rows, r = chk.model_check('MC_System.tla', 'MC_System_%s_%s.cfg' % (pid, tier), label='MC_System', heap='12g', timeout=3000)
@@ -107,6 +150,10 @@ def run(chk):
         for part in core.parallel_map(store._exec_small, [(row, 'C04', tier, i) for i, row in enumerate(sel)], chunksize=4):
             flagrows += part
         for part in core.parallel_map(store._exec_wide, [(chk.seed * 1000 + i, 'C04', (320 if tier == 'quick' else 4000) // core.NPROC + 1) for i in range(core.NPROC)]):
+            flagrows += part
+    if pid == 'C20':
+        n = 640 if tier == 'quick' else 20000
+        for part in core.parallel_map(_c20_chain, [(chk.seed * 1000 + i, n // core.NPROC + 1) for i in range(core.NPROC)]):
             flagrows += part
     sat = []
     if pid == 'C02':
